@@ -211,7 +211,9 @@ func exprNullWith(g *Grammar, null []bool, e *Expr) bool {
 func GenRecSystem(t *rapid.T) (*Grammar, map[string]bool) {
 	np := rapid.IntRange(1, 4).Draw(t, "np")
 	g := &Grammar{Lookahead: rapid.SampledFrom([]int{1, 2, 99999}).Draw(t, "k"), Elide: []string{"WS"}}
-	g.Unions = append(g.Unions, Union{Members: []int{0}, Ptr: []bool{false}})
+	// any production of the system may be the one the grammar is built from (what Build sees first, and what is
+	// still under construction while the others are finished, depends on it)
+	g.Unions = append(g.Unions, Union{Members: []int{rapid.IntRange(0, np-1).Draw(t, "rootprod")}, Ptr: []bool{false}})
 	for k := 0; k < np; k++ {
 		g.Unions = append(g.Unions, Union{Members: []int{k}, Ptr: []bool{rapid.Bool().Draw(t, "uptr")}})
 	}
